@@ -61,6 +61,9 @@ structure St where
   started : Nat := 0
   /-- how many times the body of doDispose has run -/
   bodyRuns : Nat := 0
+  /-- the tracer callbacks that bracket a transition, in the order they are made by whichever
+      goroutine runs it: `true` = TransitionInit, `false` = TransitionEnd -/
+  trace : List Bool := []
   ths : List Th := []
 deriving Repr, DecidableEq
 
@@ -79,9 +82,10 @@ def stepMut (s : St) (i : Nat) : MPc → Option St
   | .loop =>
     if s.queue > 0 then
       if s.disposing then some (setTh s i (.caller .done))
-      else some (setTh { s with queue := s.queue - 1, started := s.started + 1 } i (.caller .running))
+      else some (setTh { s with queue := s.queue - 1, started := s.started + 1, trace := s.trace ++ [true] } i
+        (.caller .running))
     else some (setTh s i (.caller .release))
-  | .running => some (setTh s i (.caller .loop))
+  | .running => some (setTh { s with trace := s.trace ++ [false] } i (.caller .loop))
   | .release => some (setTh { s with lock := false } i (.caller .recheck))
   | .recheck =>
     if s.queue > 0 ∧ ¬ s.disposing then some (setTh s i (.caller .pre))
@@ -143,6 +147,13 @@ def pastEnter : Th → Bool
   | .disp _ .body => true
   | .disp _ .tail => true
   | _ => false
+
+/-- reading a callback trace: the number of transitions open at its end, `none` when a
+    TransitionInit comes while one is open or a TransitionEnd while none is. -/
+def trStep (o : Option Nat) (b : Bool) : Option Nat :=
+  o.bind (fun n => if b then (if n = 0 then some 1 else none) else (if n = 1 then some 0 else none))
+
+def openAfter (l : List Bool) : Option Nat := l.foldl trStep (some 0)
 
 /-- goroutines inside a transition. -/
 def running (s : St) : Nat := (s.ths.filter isRunning).length
